@@ -195,7 +195,7 @@ ENDPT(start, WIFN(5startEv), f0)
 //@check id=end fn=_ZNK4crab7domains16wrapped_intervalIN4ikos8z_numberEE3endEv props=C13
 ENDPT(end, WIFN(3endEv), f1)
 /* the class's own membership test is the concretisation */
-//@check id=at fn=_ZNK4crab7domains16wrapped_intervalIN4ikos8z_numberEE2atENS_7wrapintE props=C13,C04 vary=WIW:3,64 vary_thorough=WIW:1,2,3,8,32,64
+//@check id=at fn=_ZNK4crab7domains16wrapped_intervalIN4ikos8z_numberEE2atENS_7wrapintE props=C13,C04 vary=WIW:3,64 vary_thorough=WIW:1,2,3,8,32,64 bounded="proof for ALL operands, but only at the enumerated bit widths of this run (WIW/TRP list); other widths 1..64 are not covered"
 //@check id=at_sym fn=_ZNK4crab7domains16wrapped_intervalIN4ikos8z_numberEE2atENS_7wrapintE tag=at harness=h_at props=C13,C04 tier=thorough timeout=900 first_timeout=200
 unsigned char WIFN(2atENS_7wrapintE)(WI *self, W *x)
 __CPROVER_requires(FRESH(at, self, sizeof(WI)) && FRESH(at, x, sizeof(W)) && GW && OKW(*self) && w_ok(*x) && WD(x) == GWV)
@@ -204,11 +204,11 @@ __CPROVER_ensures(__CPROVER_return_value == (unsigned char)wi_has(*self, N(x)));
 void h_at(void){ IN(WI, a); IN(W, v); HG; WIFN(2atENS_7wrapintE)(&a, &v); REACH; }
 /* crossing the north pole (0111..1 -> 1000..0) / the south pole (1111..1 -> 0000..0): of a proper interval only.
  * Semantic reading: both neighbours of the pole are elements (a proper arc that holds two adjacent values passes between them) */
-//@check id=cross_signed fn=_ZNK4crab7domains16wrapped_intervalIN4ikos8z_numberEE18cross_signed_limitEv props=C13 replace=_ZNK4crab7domains16wrapped_intervalIN4ikos8z_numberEEleERKS4_ vary=WIW:3,64 vary_thorough=WIW:1,2,3,8,32,64
+//@check id=cross_signed fn=_ZNK4crab7domains16wrapped_intervalIN4ikos8z_numberEE18cross_signed_limitEv props=C13 replace=_ZNK4crab7domains16wrapped_intervalIN4ikos8z_numberEEleERKS4_ vary=WIW:3,64 vary_thorough=WIW:1,2,3,8,32,64 bounded="proof for ALL operands, but only at the enumerated bit widths of this run (WIW/TRP list); other widths 1..64 are not covered"
 QUERY(cross_signed, WIFN(18cross_signed_limitEv), unsigned char, wi_proper(*self, GWV),
   __CPROVER_ensures(__CPROVER_return_value == (unsigned char)sp_cross_s(*self, GWV))
   __CPROVER_ensures(__CPROVER_return_value ==> (wi_has(*self, smaxv(GWV)) && wi_has(*self, sminv(GWV)))))
-//@check id=cross_unsigned fn=_ZNK4crab7domains16wrapped_intervalIN4ikos8z_numberEE20cross_unsigned_limitEv props=C13 replace=_ZNK4crab7domains16wrapped_intervalIN4ikos8z_numberEEleERKS4_ vary=WIW:3,64 vary_thorough=WIW:1,2,3,8,32,64
+//@check id=cross_unsigned fn=_ZNK4crab7domains16wrapped_intervalIN4ikos8z_numberEE20cross_unsigned_limitEv props=C13 replace=_ZNK4crab7domains16wrapped_intervalIN4ikos8z_numberEEleERKS4_ vary=WIW:3,64 vary_thorough=WIW:1,2,3,8,32,64 bounded="proof for ALL operands, but only at the enumerated bit widths of this run (WIW/TRP list); other widths 1..64 are not covered"
 QUERY(cross_unsigned, WIFN(20cross_unsigned_limitEv), unsigned char, wi_proper(*self, GWV),
   __CPROVER_ensures(__CPROVER_return_value == (unsigned char)sp_cross_u(*self, GWV))
   __CPROVER_ensures(__CPROVER_return_value ==> (wi_has(*self, M) && wi_has(*self, 0))))
@@ -218,7 +218,7 @@ QUERY(cross_unsigned, WIFN(20cross_unsigned_limitEv), unsigned char, wi_proper(*
 #define SG2(h) SATGUARD(GW && GPTS && OKW(a) && OKW(b) && (h))
 /* inclusion: exactly sp_leq; bottom on the left and top on the right say yes; a yes means inclusion of the concretisations */
 #define HYP_leq(a, b) (wi_has(a, g_x) && LEMMA(!(sp_leq(a, b) && wi_has(a, g_x)) || wi_has(b, g_x)))
-//@check id=leq fn=_ZNK4crab7domains16wrapped_intervalIN4ikos8z_numberEEleERKS4_ props=C13,C04 replace=_ZNK4crab7domains16wrapped_intervalIN4ikos8z_numberEE2atENS_7wrapintE,_ZNK4crab7domains16wrapped_intervalIN4ikos8z_numberEE6is_topEv vary=WIW:3,8,64 vary_thorough=WIW:1,2,3,4,5,8,16,32,64
+//@check id=leq fn=_ZNK4crab7domains16wrapped_intervalIN4ikos8z_numberEEleERKS4_ props=C13,C04 replace=_ZNK4crab7domains16wrapped_intervalIN4ikos8z_numberEE2atENS_7wrapintE,_ZNK4crab7domains16wrapped_intervalIN4ikos8z_numberEE6is_topEv vary=WIW:3,8,64 vary_thorough=WIW:1,2,3,4,5,8,16,32,64 bounded="proof for ALL operands, but only at the enumerated bit widths of this run (WIW/TRP list); other widths 1..64 are not covered"
 //@check id=leq_sym fn=_ZNK4crab7domains16wrapped_intervalIN4ikos8z_numberEEleERKS4_ tag=leq harness=h_leq props=C13,C04 replace=_ZNK4crab7domains16wrapped_intervalIN4ikos8z_numberEE2atENS_7wrapintE,_ZNK4crab7domains16wrapped_intervalIN4ikos8z_numberEE6is_topEv tier=thorough timeout=900 first_timeout=200
 unsigned char WIFN(leERKS4_)(WI *self, WI *x)
 __CPROVER_requires(REQ2(leq))
@@ -231,14 +231,14 @@ void h_leq(void){ IN(WI, a); IN(WI, b); HG; WIFN(leERKS4_)(&a, &b); SG2(sp_leq(a
 //@check id=leq_refl fn=_ZNK4crab7domains16wrapped_intervalIN4ikos8z_numberEEleERKS4_ tag=leq props=C04 replace=_ZNK4crab7domains16wrapped_intervalIN4ikos8z_numberEE2atENS_7wrapintE,_ZNK4crab7domains16wrapped_intervalIN4ikos8z_numberEE6is_topEv
 void h_leq_refl(void){ IN(WI, a); HG; unsigned char r = WIFN(leERKS4_)(&a, &a); __CPROVER_assert(r, "x <= x"); REACH; }
 /* == is inclusion both ways; equal representations are equal */
-//@check id=eq fn=_ZNK4crab7domains16wrapped_intervalIN4ikos8z_numberEEeqERKS4_ props=C13,C04 replace=_ZNK4crab7domains16wrapped_intervalIN4ikos8z_numberEEleERKS4_ vary=WIW:3,64 vary_thorough=WIW:1,2,3,8,32,64
+//@check id=eq fn=_ZNK4crab7domains16wrapped_intervalIN4ikos8z_numberEEeqERKS4_ props=C13,C04 replace=_ZNK4crab7domains16wrapped_intervalIN4ikos8z_numberEEleERKS4_ vary=WIW:3,64 vary_thorough=WIW:1,2,3,8,32,64 bounded="proof for ALL operands, but only at the enumerated bit widths of this run (WIW/TRP list); other widths 1..64 are not covered"
 unsigned char WIFN(eqERKS4_)(WI *self, WI *x)
 __CPROVER_requires(REQ2(eq))
 __CPROVER_assigns()
 __CPROVER_ensures(__CPROVER_return_value == (unsigned char)sp_eq(*self, *x))
 __CPROVER_ensures(wi_same(*self, *x) ==> __CPROVER_return_value);
 void h_eq(void){ IN(WI, a); IN(WI, b); HG; WIFN(eqERKS4_)(&a, &b); REACH; }
-//@check id=ne fn=_ZNK4crab7domains16wrapped_intervalIN4ikos8z_numberEEneERKS4_ props=C13,C04 replace=_ZNK4crab7domains16wrapped_intervalIN4ikos8z_numberEEeqERKS4_ vary=WIW:3,64 vary_thorough=WIW:1,2,3,8,32,64
+//@check id=ne fn=_ZNK4crab7domains16wrapped_intervalIN4ikos8z_numberEEneERKS4_ props=C13,C04 replace=_ZNK4crab7domains16wrapped_intervalIN4ikos8z_numberEEeqERKS4_ vary=WIW:3,64 vary_thorough=WIW:1,2,3,8,32,64 bounded="proof for ALL operands, but only at the enumerated bit widths of this run (WIW/TRP list); other widths 1..64 are not covered"
 unsigned char WIFN(neERKS4_)(WI *self, WI *x)
 __CPROVER_requires(REQ2(ne))
 __CPROVER_assigns()
@@ -255,14 +255,14 @@ void h_##tag(void){ IN(WI, a); IN(WI, b); HG; WI r; fn(&r, &a, &b); SG2(HYP_##ta
 #define IMP(h, c) (!(h) || (c))
 /* join: an upper bound of both */
 #define HYP_join(a, b) ((wi_has(a, g_x) || wi_has(b, g_x)) && LEMMA(wi_has(sp_join(a, b, GWV), g_x)))
-//@check id=join fn=_ZNK4crab7domains16wrapped_intervalIN4ikos8z_numberEEorERKS4_ props=C13,C04 replace=_ZNK4crab7domains16wrapped_intervalIN4ikos8z_numberEEleERKS4_,_ZNK4crab7domains16wrapped_intervalIN4ikos8z_numberEE2atENS_7wrapintE vary=WIW:3,8 vary_thorough=WIW:1,2,3,4,5,8,16,32 backends=cvc5,minisat first_timeout=400 timeout=600 cost=8
+//@check id=join fn=_ZNK4crab7domains16wrapped_intervalIN4ikos8z_numberEEorERKS4_ props=C13,C04 replace=_ZNK4crab7domains16wrapped_intervalIN4ikos8z_numberEEleERKS4_,_ZNK4crab7domains16wrapped_intervalIN4ikos8z_numberEE2atENS_7wrapintE vary=WIW:3,8 vary_thorough=WIW:1,2,3,4,5,8,16,32 backends=cvc5,minisat first_timeout=400 timeout=600 cost=8 bounded="proof for ALL operands, but only at the enumerated bit widths of this run (WIW/TRP list); other widths 1..64 are not covered"
 //@off-check id=join_sym fn=_ZNK4crab7domains16wrapped_intervalIN4ikos8z_numberEEorERKS4_ tag=join harness=h_join props=C13,C04 replace=_ZNK4crab7domains16wrapped_intervalIN4ikos8z_numberEEleERKS4_,_ZNK4crab7domains16wrapped_intervalIN4ikos8z_numberEE2atENS_7wrapintE tier=thorough timeout=900 first_timeout=200
 BINOP(join, WIFN(orERKS4_),
   __CPROVER_ensures(wi_same(*ret, sp_join(*self, *x, GWV)))
   __CPROVER_ensures(HYP_join(*self, *x) ==> wi_has(*ret, g_x)))
 /* meet: contains the common part */
 #define HYP_meet(a, b) (wi_has(a, g_x) && wi_has(b, g_x) && LEMMA(wi_has(sp_meet(a, b, GWV), g_x)))
-//@check id=meet fn=_ZNK4crab7domains16wrapped_intervalIN4ikos8z_numberEEanERKS4_ props=C13,C04 replace=_ZNK4crab7domains16wrapped_intervalIN4ikos8z_numberEEleERKS4_,_ZNK4crab7domains16wrapped_intervalIN4ikos8z_numberEE2atENS_7wrapintE vary=WIW:3,8 vary_thorough=WIW:1,2,3,4,5,8,16,32,64 backends=cvc5,minisat first_timeout=400 timeout=600 cost=8
+//@check id=meet fn=_ZNK4crab7domains16wrapped_intervalIN4ikos8z_numberEEanERKS4_ props=C13,C04 replace=_ZNK4crab7domains16wrapped_intervalIN4ikos8z_numberEEleERKS4_,_ZNK4crab7domains16wrapped_intervalIN4ikos8z_numberEE2atENS_7wrapintE vary=WIW:3,8 vary_thorough=WIW:1,2,3,4,5,8,16,32,64 backends=cvc5,minisat first_timeout=400 timeout=600 cost=8 bounded="proof for ALL operands, but only at the enumerated bit widths of this run (WIW/TRP list); other widths 1..64 are not covered"
 //@off-check id=meet_sym fn=_ZNK4crab7domains16wrapped_intervalIN4ikos8z_numberEEanERKS4_ tag=meet harness=h_meet props=C13,C04 replace=_ZNK4crab7domains16wrapped_intervalIN4ikos8z_numberEEleERKS4_,_ZNK4crab7domains16wrapped_intervalIN4ikos8z_numberEE2atENS_7wrapintE tier=thorough timeout=900 first_timeout=200
 BINOP(meet, WIFN(anERKS4_),
   __CPROVER_ensures(wi_same(*ret, sp_meet(*self, *x, GWV)))
@@ -284,8 +284,8 @@ static inline bool widen_grows(WI r, WI a, WI b, uint64_t w){
 #else
 #define WIDEN_ENS __CPROVER_ensures(HYP_widen(*self, *x) ==> wi_has(*ret, g_x))
 #endif
-//@check id=widen fn=_ZNK4crab7domains16wrapped_intervalIN4ikos8z_numberEEooERKS4_ props=C13,C05 replace=_ZNK4crab7domains16wrapped_intervalIN4ikos8z_numberEEorERKS4_,_ZNK4crab7domains16wrapped_intervalIN4ikos8z_numberEEleERKS4_,_ZNK4crab7domains16wrapped_intervalIN4ikos8z_numberEEeqERKS4_,_ZNK4crab7domains16wrapped_intervalIN4ikos8z_numberEE2atENS_7wrapintE,_ZNK4crab7domains16wrapped_intervalIN4ikos8z_numberEE6is_topEv vary=WIW:3 vary_thorough=WIW:1,2,3,4 backends=cvc5,minisat first_timeout=600 timeout=900 cost=9
-//@check id=widen_grow fn=_ZNK4crab7domains16wrapped_intervalIN4ikos8z_numberEEooERKS4_ tag=widen harness=h_widen props=C13,C05 replace=_ZNK4crab7domains16wrapped_intervalIN4ikos8z_numberEEorERKS4_,_ZNK4crab7domains16wrapped_intervalIN4ikos8z_numberEEleERKS4_,_ZNK4crab7domains16wrapped_intervalIN4ikos8z_numberEEeqERKS4_,_ZNK4crab7domains16wrapped_intervalIN4ikos8z_numberEE2atENS_7wrapintE,_ZNK4crab7domains16wrapped_intervalIN4ikos8z_numberEE6is_topEv vary=WIW:3 vary_thorough=WIW:1,2,3,4 backends=cvc5,minisat first_timeout=600 timeout=900 cost=9
+//@check id=widen fn=_ZNK4crab7domains16wrapped_intervalIN4ikos8z_numberEEooERKS4_ props=C13,C05 replace=_ZNK4crab7domains16wrapped_intervalIN4ikos8z_numberEEorERKS4_,_ZNK4crab7domains16wrapped_intervalIN4ikos8z_numberEEleERKS4_,_ZNK4crab7domains16wrapped_intervalIN4ikos8z_numberEEeqERKS4_,_ZNK4crab7domains16wrapped_intervalIN4ikos8z_numberEE2atENS_7wrapintE,_ZNK4crab7domains16wrapped_intervalIN4ikos8z_numberEE6is_topEv vary=WIW:3 vary_thorough=WIW:1,2,3,4 backends=cvc5,minisat first_timeout=600 timeout=900 cost=9 bounded="proof for ALL operands, but only at the enumerated bit widths of this run (WIW/TRP list); other widths 1..64 are not covered"
+//@check id=widen_grow fn=_ZNK4crab7domains16wrapped_intervalIN4ikos8z_numberEEooERKS4_ tag=widen harness=h_widen props=C13,C05 replace=_ZNK4crab7domains16wrapped_intervalIN4ikos8z_numberEEorERKS4_,_ZNK4crab7domains16wrapped_intervalIN4ikos8z_numberEEleERKS4_,_ZNK4crab7domains16wrapped_intervalIN4ikos8z_numberEEeqERKS4_,_ZNK4crab7domains16wrapped_intervalIN4ikos8z_numberEE2atENS_7wrapintE,_ZNK4crab7domains16wrapped_intervalIN4ikos8z_numberEE6is_topEv vary=WIW:3 vary_thorough=WIW:1,2,3,4 backends=cvc5,minisat first_timeout=600 timeout=900 cost=9 bounded="proof for ALL operands, but only at the enumerated bit widths of this run (WIW/TRP list); other widths 1..64 are not covered"
 BINOP(widen, WIFN(ooERKS4_), WIDEN_ENS)
 /* REGRESSION WITNESSES with CONCRETE operands (the real code executed symbolically on one input, with the undefined-behaviour
  * checks on; not proofs).  The general contract above is only decided at widths <= 4; these pin the two widening defects
@@ -298,31 +298,31 @@ BINOP(widen, WIFN(ooERKS4_), WIDEN_ENS)
 #else
 #define WLIM ((uint64_t)1 << (GWV - 1))
 #endif
-//@check id=widen_limit fn=_ZNK4crab7domains16wrapped_intervalIN4ikos8z_numberEEooERKS4_ tag=widen harness=h_widen_limit props=C13,C05 vary=WIW:8,34,64
+//@check id=widen_limit fn=_ZNK4crab7domains16wrapped_intervalIN4ikos8z_numberEEooERKS4_ tag=widen harness=h_widen_limit props=C13,C05 vary=WIW:8,34,64 bounded="regression witness: real code on ONE concrete input per run, not a proof"
 void h_widen_limit(void){ WI a = mkwi(GWV, 0, WLIM), b = mkwi(GWV, 0, WLIM + 1), r; HG;
   WIFN(ooERKS4_)(&r, &a, &b);
   __CPROVER_assert(wi_top(r), "[0, 2^(w-3)] || [0, 2^(w-3) + 1] is top");
   REACH; }
-//@check id=widen_cover fn=_ZNK4crab7domains16wrapped_intervalIN4ikos8z_numberEEooERKS4_ tag=widen harness=h_widen_cover props=C13,C05 vary=WIW:8 backends=cvc5,minisat first_timeout=400 timeout=600 cost=8
+//@check id=widen_cover fn=_ZNK4crab7domains16wrapped_intervalIN4ikos8z_numberEEooERKS4_ tag=widen harness=h_widen_cover props=C13,C05 vary=WIW:8 backends=cvc5,minisat first_timeout=400 timeout=600 cost=8 bounded="regression witness: real code on ONE concrete input per run, not a proof"
 void h_widen_cover(void){ WI a = mkwi(8, 186, 200), b = mkwi(8, 197, 187), r; HG;
   WIFN(ooERKS4_)(&r, &a, &b);
   __CPROVER_assert(wi_has(r, 193) && wi_top(r), "[186,200]_8 || [197,187]_8 is top (193 is an element of the left operand)");
   REACH; }
 /* narrowing (= meet): of a decreasing pair keeps every element of the second argument */
 #define HYP_narrow(a, b) (sp_leq(b, a) && wi_has(b, g_x) && LEMMA(wi_has(sp_meet(a, b, GWV), g_x)))
-//@check id=narrow fn=_ZNK4crab7domains16wrapped_intervalIN4ikos8z_numberEEaaERKS4_ props=C13,C05 replace=_ZNK4crab7domains16wrapped_intervalIN4ikos8z_numberEEanERKS4_ vary=WIW:3,8 vary_thorough=WIW:1,2,3,4,5,8,16,32,64 backends=cvc5,minisat first_timeout=400 timeout=600 cost=8
+//@check id=narrow fn=_ZNK4crab7domains16wrapped_intervalIN4ikos8z_numberEEaaERKS4_ props=C13,C05 replace=_ZNK4crab7domains16wrapped_intervalIN4ikos8z_numberEEanERKS4_ vary=WIW:3,8 vary_thorough=WIW:1,2,3,4,5,8,16,32,64 backends=cvc5,minisat first_timeout=400 timeout=600 cost=8 bounded="proof for ALL operands, but only at the enumerated bit widths of this run (WIW/TRP list); other widths 1..64 are not covered"
 //@check id=narrow_sym fn=_ZNK4crab7domains16wrapped_intervalIN4ikos8z_numberEEaaERKS4_ tag=narrow harness=h_narrow props=C13,C05 replace=_ZNK4crab7domains16wrapped_intervalIN4ikos8z_numberEEanERKS4_ tier=thorough timeout=900 first_timeout=200
 BINOP(narrow, WIFN(aaERKS4_),
   __CPROVER_ensures(HYP_narrow(*self, *x) ==> wi_has(*ret, g_x)))
 
 /* ================================================================ arithmetic (C13) */
 #define HYP_add(a, b) (wi_has(a, g_x) && wi_has(b, g_y) && LEMMA(wi_has(sp_add(a, b, GWV), (g_x + g_y) & M)))
-//@check id=add fn=_ZNK4crab7domains16wrapped_intervalIN4ikos8z_numberEEplERKS4_ props=C13 replace=_ZNK4crab7domains16wrapped_intervalIN4ikos8z_numberEE6is_topEv vary=WIW:3,8,64 vary_thorough=WIW:1,2,3,4,5,8,16,32,64
+//@check id=add fn=_ZNK4crab7domains16wrapped_intervalIN4ikos8z_numberEEplERKS4_ props=C13 replace=_ZNK4crab7domains16wrapped_intervalIN4ikos8z_numberEE6is_topEv vary=WIW:3,8,64 vary_thorough=WIW:1,2,3,4,5,8,16,32,64 bounded="proof for ALL operands, but only at the enumerated bit widths of this run (WIW/TRP list); other widths 1..64 are not covered"
 //@check id=add_sym fn=_ZNK4crab7domains16wrapped_intervalIN4ikos8z_numberEEplERKS4_ tag=add harness=h_add props=C13 replace=_ZNK4crab7domains16wrapped_intervalIN4ikos8z_numberEE6is_topEv tier=thorough timeout=900 first_timeout=200
 BINOP(add, WIFN(plERKS4_),
   __CPROVER_ensures(HYP_add(*self, *x) ==> wi_has(*ret, (g_x + g_y) & M)))
 #define HYP_sub(a, b) (wi_has(a, g_x) && wi_has(b, g_y) && LEMMA(wi_has(sp_sub(a, b, GWV), (g_x - g_y) & M)))
-//@check id=sub fn=_ZNK4crab7domains16wrapped_intervalIN4ikos8z_numberEEmiERKS4_ props=C13 replace=_ZNK4crab7domains16wrapped_intervalIN4ikos8z_numberEE6is_topEv vary=WIW:3,8,64 vary_thorough=WIW:1,2,3,4,5,8,16,32,64
+//@check id=sub fn=_ZNK4crab7domains16wrapped_intervalIN4ikos8z_numberEEmiERKS4_ props=C13 replace=_ZNK4crab7domains16wrapped_intervalIN4ikos8z_numberEE6is_topEv vary=WIW:3,8,64 vary_thorough=WIW:1,2,3,4,5,8,16,32,64 bounded="proof for ALL operands, but only at the enumerated bit widths of this run (WIW/TRP list); other widths 1..64 are not covered"
 //@check id=sub_sym fn=_ZNK4crab7domains16wrapped_intervalIN4ikos8z_numberEEmiERKS4_ tag=sub harness=h_sub props=C13 replace=_ZNK4crab7domains16wrapped_intervalIN4ikos8z_numberEE6is_topEv tier=thorough timeout=900 first_timeout=200
 BINOP(sub, WIFN(miERKS4_),
   __CPROVER_ensures(HYP_sub(*self, *x) ==> wi_has(*ret, (g_x - g_y) & M)))
@@ -334,19 +334,19 @@ __CPROVER_ensures(OKW(*ret)) \
 __VA_ARGS__; \
 void h_##tag(void){ IN(WI, a); HG; WI r; fn(&r, &a); SATGUARD(GW && GPTS && OKW(a) && HYP_##tag(a)); REACH; }
 #define HYP_neg(a) (wi_has(a, g_x) && LEMMA(wi_has(sp_neg(a, GWV), (0 - g_x) & M)))
-//@check id=neg fn=_ZNK4crab7domains16wrapped_intervalIN4ikos8z_numberEEngEv props=C13 replace=_ZNK4crab7domains16wrapped_intervalIN4ikos8z_numberEE6is_topEv vary=WIW:3,8,64 vary_thorough=WIW:1,2,3,4,5,8,16,32,64
+//@check id=neg fn=_ZNK4crab7domains16wrapped_intervalIN4ikos8z_numberEEngEv props=C13 replace=_ZNK4crab7domains16wrapped_intervalIN4ikos8z_numberEE6is_topEv vary=WIW:3,8,64 vary_thorough=WIW:1,2,3,4,5,8,16,32,64 bounded="proof for ALL operands, but only at the enumerated bit widths of this run (WIW/TRP list); other widths 1..64 are not covered"
 //@check id=neg_sym fn=_ZNK4crab7domains16wrapped_intervalIN4ikos8z_numberEEngEv tag=neg harness=h_neg props=C13 replace=_ZNK4crab7domains16wrapped_intervalIN4ikos8z_numberEE6is_topEv tier=thorough timeout=900 first_timeout=200
 UNOP(neg, WIFN(ngEv),
   __CPROVER_ensures(HYP_neg(*self) ==> wi_has(*ret, (0 - g_x) & M)))
 /* compound assignment: *this = *this + x, returns this */
-//@check id=add_asg fn=_ZN4crab7domains16wrapped_intervalIN4ikos8z_numberEEpLERKS4_ props=C13 vary=WIW:3 vary_thorough=WIW:1,2,3,4
+//@check id=add_asg fn=_ZN4crab7domains16wrapped_intervalIN4ikos8z_numberEEpLERKS4_ props=C13 vary=WIW:3 vary_thorough=WIW:1,2,3,4 bounded="proof for ALL operands, but only at the enumerated bit widths of this run (WIW/TRP list); other widths 1..64 are not covered"
 WI *WISFN(pLERKS4_)(WI *self, WI *x)
 __CPROVER_requires(REQ2(add_asg))
 __CPROVER_assigns(*self)
 __CPROVER_ensures(__CPROVER_return_value == self && OKW(*self))
 __CPROVER_ensures((wi_has(__CPROVER_old(*self), g_x) && wi_has(*x, g_y)) ==> wi_has(*self, (g_x + g_y) & M));
 void h_add_asg(void){ IN(WI, a); IN(WI, b); HG; WISFN(pLERKS4_)(&a, &b); REACH; }
-//@check id=sub_asg fn=_ZN4crab7domains16wrapped_intervalIN4ikos8z_numberEEmIERKS4_ props=C13 vary=WIW:3 vary_thorough=WIW:1,2,3,4
+//@check id=sub_asg fn=_ZN4crab7domains16wrapped_intervalIN4ikos8z_numberEEmIERKS4_ props=C13 vary=WIW:3 vary_thorough=WIW:1,2,3,4 bounded="proof for ALL operands, but only at the enumerated bit widths of this run (WIW/TRP list); other widths 1..64 are not covered"
 WI *WISFN(mIERKS4_)(WI *self, WI *x)
 __CPROVER_requires(REQ2(sub_asg))
 __CPROVER_assigns(*self)
@@ -365,9 +365,9 @@ __CPROVER_ensures((wi_has(*self, g_x) && wi_has(*x, g_y) && (DEF)) ==> wi_has(*r
 void h_##tag(void){ IN(WI, a); IN(WI, b); HG; WI r; fn(&r, &a, &b); REACH; }
 //@check id=default_impl fn=_ZNK4crab7domains16wrapped_intervalIN4ikos8z_numberEE22default_implementationERKS4_ props=C13
 DEFAULT_OP(default_impl, WIFN(22default_implementationERKS4_), 1, g_x)
-//@check id=srem fn=_ZNK4crab7domains16wrapped_intervalIN4ikos8z_numberEE4SRemERKS4_ props=C13 vary=WIW:3 vary_thorough=WIW:3,8
+//@check id=srem fn=_ZNK4crab7domains16wrapped_intervalIN4ikos8z_numberEE4SRemERKS4_ props=C13 vary=WIW:3 vary_thorough=WIW:3,8 bounded="proof for ALL operands, but only at the enumerated bit widths of this run (WIW/TRP list); other widths 1..64 are not covered"
 DEFAULT_OP(srem, WIFN(4SRemERKS4_), g_y != 0, wrapz(sremv(g_x, g_y, GWV), GWV))
-//@check id=urem fn=_ZNK4crab7domains16wrapped_intervalIN4ikos8z_numberEE4URemERKS4_ props=C13 vary=WIW:3 vary_thorough=WIW:3,8
+//@check id=urem fn=_ZNK4crab7domains16wrapped_intervalIN4ikos8z_numberEE4URemERKS4_ props=C13 vary=WIW:3 vary_thorough=WIW:3,8 bounded="proof for ALL operands, but only at the enumerated bit widths of this run (WIW/TRP list); other widths 1..64 are not covered"
 DEFAULT_OP(urem, WIFN(4URemERKS4_), g_y != 0, g_x % (g_y == 0 ? 1 : g_y))
 //@check id=and fn=_ZNK4crab7domains16wrapped_intervalIN4ikos8z_numberEE3AndERKS4_ props=C13
 DEFAULT_OP(and, WIFN(3AndERKS4_), 1, g_x & g_y)
@@ -386,15 +386,15 @@ __CPROVER_ensures(OKW(*ret)) \
 __VA_ARGS__; \
 void h_##tag(void){ IN(WI, a); GHOST(uint64_t, k); HG; WI r; fn(&r, &a, k); SATGUARD(GW && GPTS && OKW(a) && (k < GWV) && HYP_##tag(a, k)); REACH; }
 #define HYP_shl_k(a, k) (wi_has(a, g_x) && LEMMA((k) == 0 || wi_has(sp_shl(a, k, GWV), (g_x << (k)) & M)))
-//@check id=shl_k fn=_ZNK4crab7domains16wrapped_intervalIN4ikos8z_numberEE3ShlEm props=C13 vary=WIW:3,8 vary_thorough=WIW:2,3,4,5,8,16
+//@check id=shl_k fn=_ZNK4crab7domains16wrapped_intervalIN4ikos8z_numberEE3ShlEm props=C13 vary=WIW:3,8 vary_thorough=WIW:2,3,4,5,8,16 bounded="proof for ALL operands, but only at the enumerated bit widths of this run (WIW/TRP list); other widths 1..64 are not covered"
 SHIFTK(shl_k, WIFN(3ShlEm), k < GWV,
   __CPROVER_ensures(HYP_shl_k(*self, k) ==> wi_has(*ret, (g_x << k) & M)))
 #define HYP_lshr_k(a, k) (wi_has(a, g_x) && LEMMA(wi_has(sp_lshr(a, k, GWV), g_x >> (k))))
-//@check id=lshr_k fn=_ZNK4crab7domains16wrapped_intervalIN4ikos8z_numberEE4LShrEm props=C13 replace=_ZNK4crab7domains16wrapped_intervalIN4ikos8z_numberEE20cross_unsigned_limitEv,_ZNK4crab7domains16wrapped_intervalIN4ikos8z_numberEE6is_topEv vary=WIW:3,8,32 vary_thorough=WIW:1,2,3,4,5,8,16,32
+//@check id=lshr_k fn=_ZNK4crab7domains16wrapped_intervalIN4ikos8z_numberEE4LShrEm props=C13 replace=_ZNK4crab7domains16wrapped_intervalIN4ikos8z_numberEE20cross_unsigned_limitEv,_ZNK4crab7domains16wrapped_intervalIN4ikos8z_numberEE6is_topEv vary=WIW:3,8,32 vary_thorough=WIW:1,2,3,4,5,8,16,32 bounded="proof for ALL operands, but only at the enumerated bit widths of this run (WIW/TRP list); other widths 1..64 are not covered"
 SHIFTK(lshr_k, WIFN(4LShrEm), k < GWV,
   __CPROVER_ensures(HYP_lshr_k(*self, k) ==> wi_has(*ret, g_x >> k)))
 #define HYP_ashr_k(a, k) (wi_has(a, g_x) && LEMMA(wi_has(sp_ashr(a, k, GWV), ashrv(g_x, k, GWV))))
-//@check id=ashr_k fn=_ZNK4crab7domains16wrapped_intervalIN4ikos8z_numberEE4AShrEm props=C13 replace=_ZNK4crab7domains16wrapped_intervalIN4ikos8z_numberEE18cross_signed_limitEv,_ZNK4crab7domains16wrapped_intervalIN4ikos8z_numberEE6is_topEv vary=WIW:3,8 vary_thorough=WIW:1,2,3,4,5,8,16
+//@check id=ashr_k fn=_ZNK4crab7domains16wrapped_intervalIN4ikos8z_numberEE4AShrEm props=C13 replace=_ZNK4crab7domains16wrapped_intervalIN4ikos8z_numberEE18cross_signed_limitEv,_ZNK4crab7domains16wrapped_intervalIN4ikos8z_numberEE6is_topEv vary=WIW:3,8 vary_thorough=WIW:1,2,3,4,5,8,16 bounded="proof for ALL operands, but only at the enumerated bit widths of this run (WIW/TRP list); other widths 1..64 are not covered"
 SHIFTK(ashr_k, WIFN(4AShrEm), k < GWV,
   __CPROVER_ensures(HYP_ashr_k(*self, k) ==> wi_has(*ret, ashrv(g_x, k, GWV))))
 /* shifts by an interval: the amounts are the elements of x; only amounts < width have a defined concrete result, but NO shift
@@ -406,11 +406,11 @@ __CPROVER_assigns(*ret) \
 __CPROVER_ensures(OKW(*ret)) \
 __CPROVER_ensures((wi_has(*self, g_x) && wi_has(*x, g_y) && g_y < GWV) ==> wi_has(*ret, V)); \
 void h_##tag(void){ IN(WI, a); IN(WI, b); HG; WI r; fn(&r, &a, &b); REACH; }
-//@check id=shl fn=_ZNK4crab7domains16wrapped_intervalIN4ikos8z_numberEE3ShlERKS4_ props=C13 vary=WIW:3 vary_thorough=WIW:2,3,4
+//@check id=shl fn=_ZNK4crab7domains16wrapped_intervalIN4ikos8z_numberEE3ShlERKS4_ props=C13 vary=WIW:3 vary_thorough=WIW:2,3,4 bounded="proof for ALL operands, but only at the enumerated bit widths of this run (WIW/TRP list); other widths 1..64 are not covered"
 SHIFTX(shl, WIFN(3ShlERKS4_), (g_x << g_y) & M)
-//@check id=lshr fn=_ZNK4crab7domains16wrapped_intervalIN4ikos8z_numberEE4LShrERKS4_ props=C13 vary=WIW:3 vary_thorough=WIW:2,3,4
+//@check id=lshr fn=_ZNK4crab7domains16wrapped_intervalIN4ikos8z_numberEE4LShrERKS4_ props=C13 vary=WIW:3 vary_thorough=WIW:2,3,4 bounded="proof for ALL operands, but only at the enumerated bit widths of this run (WIW/TRP list); other widths 1..64 are not covered"
 SHIFTX(lshr, WIFN(4LShrERKS4_), g_x >> g_y)
-//@check id=ashr fn=_ZNK4crab7domains16wrapped_intervalIN4ikos8z_numberEE4AShrERKS4_ props=C13 vary=WIW:3 vary_thorough=WIW:2,3,4
+//@check id=ashr fn=_ZNK4crab7domains16wrapped_intervalIN4ikos8z_numberEE4AShrERKS4_ props=C13 vary=WIW:3 vary_thorough=WIW:2,3,4 bounded="proof for ALL operands, but only at the enumerated bit widths of this run (WIW/TRP list); other widths 1..64 are not covered"
 SHIFTX(ashr, WIFN(4AShrERKS4_), ashrv(g_x, g_y, GWV))
 
 /* ---------------------------------------------------------------- width changes */
@@ -421,8 +421,8 @@ SHIFTX(ashr, WIFN(4AShrERKS4_), ashrv(g_x, g_y, GWV))
 #define TRKPRE(k) 1
 #endif
 #define HYP_trunc(a, k) (wi_has(a, g_x) && LEMMA(wi_has(sp_trunc(a, k, GWV), g_x & msk(k))))
-//@check id=trunc fn=_ZNK4crab7domains16wrapped_intervalIN4ikos8z_numberEE5TruncEj props=C13 vary=WIW:3 vary_thorough=WIW:2,3,4
-//@check id=trunc_w fn=_ZNK4crab7domains16wrapped_intervalIN4ikos8z_numberEE5TruncEj tag=trunc harness=h_trunc props=C13 vary=TRP:804,6432 vary_thorough=TRP:801,804,807,1608,3201,3208,3216,3231,6401,6408,6416,6432,6463
+//@check id=trunc fn=_ZNK4crab7domains16wrapped_intervalIN4ikos8z_numberEE5TruncEj props=C13 vary=WIW:3 vary_thorough=WIW:2,3,4 bounded="proof for ALL operands, but only at the enumerated bit widths of this run (WIW/TRP list); other widths 1..64 are not covered"
+//@check id=trunc_w fn=_ZNK4crab7domains16wrapped_intervalIN4ikos8z_numberEE5TruncEj tag=trunc harness=h_trunc props=C13 vary=TRP:804,6432 vary_thorough=TRP:801,804,807,1608,3201,3208,3216,3231,6401,6408,6416,6432,6463 bounded="proof for ALL operands, but only at the enumerated bit widths of this run (WIW/TRP list); other widths 1..64 are not covered"
 void WIFN(5TruncEj)(WI *ret, WI *self, uint32_t k)
 __CPROVER_requires(FRESH(trunc, ret, sizeof(WI)) && FRESH(trunc, self, sizeof(WI)) && GW && GPTS && OKW(*self) && k >= 1 && k < GWV && TRKPRE(k))
 __CPROVER_assigns(*ret)
@@ -440,7 +440,7 @@ __CPROVER_ensures(wi_has(*self, g_x) ==> wi_has(*ret, g_x));
 /* REGRESSION WITNESS (concrete operand top()): ZExt / SExt of top is top (Trunc does the same).  The general soundness
  * contract above is NOT run: ZExt is 290 830 symex steps and 20M variables (two joins in a loop over the split vector); it was
  * seen to fail on the unrepaired tree (CRAB_ERROR reachable) but no back end completes the proof on the repaired one */
-//@check id=zext_top fn=_ZNK4crab7domains16wrapped_intervalIN4ikos8z_numberEE4ZExtEj tag=zext harness=h_zext_top props=C13 unwind=4
+//@check id=zext_top fn=_ZNK4crab7domains16wrapped_intervalIN4ikos8z_numberEE4ZExtEj tag=zext harness=h_zext_top props=C13 unwind=4 bounded="regression witness: real code on ONE concrete input per run, not a proof"
 void h_zext_top(void){ WI a = sp_top(), r; HG; WIFN(4ZExtEj)(&r, &a, 3); __CPROVER_assert(wi_top(r), "ZExt of top is top"); REACH; }
 void h_zext(void){ IN(WI, a); GHOST(uint32_t, bits); HG; WI r; WIFN(4ZExtEj)(&r, &a, bits); REACH; }
 //@off-check id=sext fn=_ZNK4crab7domains16wrapped_intervalIN4ikos8z_numberEE4SExtEj props=C13 unwind=4 vary=WIW:2 vary_thorough=WIW:1,2,3 backends=minisat,cvc5 first_timeout=300 timeout=600 cost=8
@@ -449,7 +449,7 @@ __CPROVER_requires(FRESH(sext, ret, sizeof(WI)) && FRESH(sext, self, sizeof(WI))
 __CPROVER_assigns(*ret)
 __CPROVER_ensures(wi_okw(*ret, GWV + bits))
 __CPROVER_ensures(wi_has(*self, g_x) ==> wi_has(*ret, wrapz(sxv(g_x, GWV), GWV + bits)));
-//@check id=sext_top fn=_ZNK4crab7domains16wrapped_intervalIN4ikos8z_numberEE4SExtEj tag=sext harness=h_sext_top props=C13 unwind=4
+//@check id=sext_top fn=_ZNK4crab7domains16wrapped_intervalIN4ikos8z_numberEE4SExtEj tag=sext harness=h_sext_top props=C13 unwind=4 bounded="regression witness: real code on ONE concrete input per run, not a proof"
 void h_sext_top(void){ WI a = sp_top(), r; HG; WIFN(4SExtEj)(&r, &a, 3); __CPROVER_assert(wi_top(r), "SExt of top is top"); REACH; }
 void h_sext(void){ IN(WI, a); GHOST(uint32_t, bits); HG; WI r; WIFN(4SExtEj)(&r, &a, bits); REACH; }
 
@@ -465,24 +465,24 @@ void h_##tag(void){ IN(WI, a); GHOST(unsigned char, sg); HG; WI r; fn(&r, &a, sg
 #define BELOW(sg) ((sg) ? sle(g_y, g_x, GWV) : g_y <= g_x)
 #define ABOVE(sg) ((sg) ? sle(g_x, g_y, GWV) : g_x <= g_y)
 #define HYP_lower_half(a, sg) (wi_has(a, g_x) && BELOW(sg) && LEMMA(wi_has(sp_lower(a, sg, GWV), g_y)))
-//@check id=lower_half fn=_ZNK4crab7domains16wrapped_intervalIN4ikos8z_numberEE15lower_half_lineEb props=C13 replace=_ZNK4crab7domains16wrapped_intervalIN4ikos8z_numberEE2atENS_7wrapintE,_ZNK4crab7domains16wrapped_intervalIN4ikos8z_numberEE6is_topEv vary=WIW:3,8,64 vary_thorough=WIW:1,2,3,4,5,8,16,32,64
+//@check id=lower_half fn=_ZNK4crab7domains16wrapped_intervalIN4ikos8z_numberEE15lower_half_lineEb props=C13 replace=_ZNK4crab7domains16wrapped_intervalIN4ikos8z_numberEE2atENS_7wrapintE,_ZNK4crab7domains16wrapped_intervalIN4ikos8z_numberEE6is_topEv vary=WIW:3,8,64 vary_thorough=WIW:1,2,3,4,5,8,16,32,64 bounded="proof for ALL operands, but only at the enumerated bit widths of this run (WIW/TRP list); other widths 1..64 are not covered"
 //@check id=lower_half_sym fn=_ZNK4crab7domains16wrapped_intervalIN4ikos8z_numberEE15lower_half_lineEb tag=lower_half harness=h_lower_half props=C13 replace=_ZNK4crab7domains16wrapped_intervalIN4ikos8z_numberEE2atENS_7wrapintE,_ZNK4crab7domains16wrapped_intervalIN4ikos8z_numberEE6is_topEv tier=thorough timeout=900 first_timeout=200
 HALF(lower_half, WIFN(15lower_half_lineEb),
   __CPROVER_ensures(HYP_lower_half(*self, sg) ==> wi_has(*ret, g_y)))
 #define HYP_upper_half(a, sg) (wi_has(a, g_x) && ABOVE(sg) && LEMMA(wi_has(sp_upper(a, sg, GWV), g_y)))
-//@check id=upper_half fn=_ZNK4crab7domains16wrapped_intervalIN4ikos8z_numberEE15upper_half_lineEb props=C13 replace=_ZNK4crab7domains16wrapped_intervalIN4ikos8z_numberEE2atENS_7wrapintE,_ZNK4crab7domains16wrapped_intervalIN4ikos8z_numberEE6is_topEv vary=WIW:3,8,64 vary_thorough=WIW:1,2,3,4,5,8,16,32,64
+//@check id=upper_half fn=_ZNK4crab7domains16wrapped_intervalIN4ikos8z_numberEE15upper_half_lineEb props=C13 replace=_ZNK4crab7domains16wrapped_intervalIN4ikos8z_numberEE2atENS_7wrapintE,_ZNK4crab7domains16wrapped_intervalIN4ikos8z_numberEE6is_topEv vary=WIW:3,8,64 vary_thorough=WIW:1,2,3,4,5,8,16,32,64 bounded="proof for ALL operands, but only at the enumerated bit widths of this run (WIW/TRP list); other widths 1..64 are not covered"
 //@check id=upper_half_sym fn=_ZNK4crab7domains16wrapped_intervalIN4ikos8z_numberEE15upper_half_lineEb tag=upper_half harness=h_upper_half props=C13 replace=_ZNK4crab7domains16wrapped_intervalIN4ikos8z_numberEE2atENS_7wrapintE,_ZNK4crab7domains16wrapped_intervalIN4ikos8z_numberEE6is_topEv tier=thorough timeout=900 first_timeout=200
 HALF(upper_half, WIFN(15upper_half_lineEb),
   __CPROVER_ensures(HYP_upper_half(*self, sg) ==> wi_has(*ret, g_y)))
 /* the linear_interval_solver_impl wrappers */
-//@check id=lis_lower_half fn=_ZN4ikos27linear_interval_solver_impl15lower_half_lineIN4crab7domains16wrapped_intervalINS_8z_numberEEEEET_RKS7_b props=C13 vary=WIW:3 vary_thorough=WIW:1,2,3,4
+//@check id=lis_lower_half fn=_ZN4ikos27linear_interval_solver_impl15lower_half_lineIN4crab7domains16wrapped_intervalINS_8z_numberEEEEET_RKS7_b props=C13 vary=WIW:3 vary_thorough=WIW:1,2,3,4 bounded="proof for ALL operands, but only at the enumerated bit widths of this run (WIW/TRP list); other widths 1..64 are not covered"
 void _ZN4ikos27linear_interval_solver_impl15lower_half_lineIN4crab7domains16wrapped_intervalINS_8z_numberEEEEET_RKS7_b(WI *ret, WI *self, unsigned char sg)
 __CPROVER_requires(FRESH(lis_lower_half, ret, sizeof(WI)) && FRESH(lis_lower_half, self, sizeof(WI)) && GW && GPTS && OKW(*self) && sg <= 1)
 __CPROVER_assigns(*ret)
 __CPROVER_ensures(OKW(*ret))
 __CPROVER_ensures((wi_has(*self, g_x) && BELOW(sg)) ==> wi_has(*ret, g_y));
 void h_lis_lower_half(void){ IN(WI, a); GHOST(unsigned char, sg); HG; WI r; _ZN4ikos27linear_interval_solver_impl15lower_half_lineIN4crab7domains16wrapped_intervalINS_8z_numberEEEEET_RKS7_b(&r, &a, sg); REACH; }
-//@check id=lis_upper_half fn=_ZN4ikos27linear_interval_solver_impl15upper_half_lineIN4crab7domains16wrapped_intervalINS_8z_numberEEEEET_RKS7_b props=C13 vary=WIW:3 vary_thorough=WIW:1,2,3,4
+//@check id=lis_upper_half fn=_ZN4ikos27linear_interval_solver_impl15upper_half_lineIN4crab7domains16wrapped_intervalINS_8z_numberEEEEET_RKS7_b props=C13 vary=WIW:3 vary_thorough=WIW:1,2,3,4 bounded="proof for ALL operands, but only at the enumerated bit widths of this run (WIW/TRP list); other widths 1..64 are not covered"
 void _ZN4ikos27linear_interval_solver_impl15upper_half_lineIN4crab7domains16wrapped_intervalINS_8z_numberEEEEET_RKS7_b(WI *ret, WI *self, unsigned char sg)
 __CPROVER_requires(FRESH(lis_upper_half, ret, sizeof(WI)) && FRESH(lis_upper_half, self, sizeof(WI)) && GW && GPTS && OKW(*self) && sg <= 1)
 __CPROVER_assigns(*ret)
@@ -492,7 +492,7 @@ void h_lis_upper_half(void){ IN(WI, a); GHOST(unsigned char, sg); HG; WI r; _ZN4
 /* trim_interval(i, j): refine i with x != c when j is the singleton {c}: nothing but c is lost, nothing is gained */
 #define KEEPS(a, b) (wi_has(a, g_x) && !(sp_single(b) && g_x == WS(b)))
 #define HYP_trim(a, b) (LEMMA(IMP(KEEPS(a, b), wi_has(sp_trim(a, b, GWV), g_x)) && IMP(wi_has(sp_trim(a, b, GWV), g_x), wi_has(a, g_x))))
-//@check id=trim fn=_ZN4ikos27linear_interval_solver_impl13trim_intervalIN4crab7domains16wrapped_intervalINS_8z_numberEEEEET_RKS7_S9_ props=C13 vary=WIW:3,8 vary_thorough=WIW:1,2,3,4,5,8
+//@check id=trim fn=_ZN4ikos27linear_interval_solver_impl13trim_intervalIN4crab7domains16wrapped_intervalINS_8z_numberEEEEET_RKS7_S9_ props=C13 vary=WIW:3,8 vary_thorough=WIW:1,2,3,4,5,8 bounded="proof for ALL operands, but only at the enumerated bit widths of this run (WIW/TRP list); other widths 1..64 are not covered"
 //@off-check id=trim_sym fn=_ZN4ikos27linear_interval_solver_impl13trim_intervalIN4crab7domains16wrapped_intervalINS_8z_numberEEEEET_RKS7_S9_ tag=trim harness=h_trim props=C13 tier=thorough timeout=900 first_timeout=200
 BINOP(trim, _ZN4ikos27linear_interval_solver_impl13trim_intervalIN4crab7domains16wrapped_intervalINS_8z_numberEEEEET_RKS7_S9_,
   __CPROVER_ensures((HYP_trim(*self, *x) && KEEPS(*self, *x)) ==> wi_has(*ret, g_x))
@@ -518,16 +518,16 @@ __CPROVER_ensures(VN(out) <= (MAXN) && (wi_bot(*self) ? VN(out) == 0 : VN(out) >
 __CPROVER_ensures(wi_has(*self, g_x) == vec_has(out, g_x)); \
 void h_##tag(void){ IN(WI, a); VEC v; HG; fn(&a, &v); REACH; }
 /* nsplit: cut at the north pole; no piece crosses it; the pieces cover exactly self.  Not of a top (get_bitwidth: CRAB_ERROR) */
-//@check id=signed_split fn=_ZNK4crab7domains16wrapped_intervalIN4ikos8z_numberEE12signed_splitERSt6vectorIS4_SaIS4_EE props=C13 unwind=4 replace=_ZNK4crab7domains16wrapped_intervalIN4ikos8z_numberEEleERKS4_,_ZNK4crab7domains16wrapped_intervalIN4ikos8z_numberEE6is_topEv vary=WIW:3 vary_thorough=WIW:1,2,3,4,8
+//@check id=signed_split fn=_ZNK4crab7domains16wrapped_intervalIN4ikos8z_numberEE12signed_splitERSt6vectorIS4_SaIS4_EE props=C13 unwind=4 replace=_ZNK4crab7domains16wrapped_intervalIN4ikos8z_numberEEleERKS4_,_ZNK4crab7domains16wrapped_intervalIN4ikos8z_numberEE6is_topEv vary=WIW:3 vary_thorough=WIW:1,2,3,4,8 bounded="proof for ALL operands, but only at the enumerated bit widths of this run (WIW/TRP list); other widths 1..64 are not covered"
 SPLIT(signed_split, WIFN(12signed_splitERSt6vectorIS4_SaIS4_EE), 2, vec_none_cross_s(out, GWV))
 /* ssplit: cut at the south pole */
-//@check id=unsigned_split fn=_ZNK4crab7domains16wrapped_intervalIN4ikos8z_numberEE14unsigned_splitERSt6vectorIS4_SaIS4_EE props=C13 unwind=4 replace=_ZNK4crab7domains16wrapped_intervalIN4ikos8z_numberEEleERKS4_,_ZNK4crab7domains16wrapped_intervalIN4ikos8z_numberEE6is_topEv vary=WIW:3 vary_thorough=WIW:1,2,3,4,8
+//@check id=unsigned_split fn=_ZNK4crab7domains16wrapped_intervalIN4ikos8z_numberEE14unsigned_splitERSt6vectorIS4_SaIS4_EE props=C13 unwind=4 replace=_ZNK4crab7domains16wrapped_intervalIN4ikos8z_numberEEleERKS4_,_ZNK4crab7domains16wrapped_intervalIN4ikos8z_numberEE6is_topEv vary=WIW:3 vary_thorough=WIW:1,2,3,4,8 bounded="proof for ALL operands, but only at the enumerated bit widths of this run (WIW/TRP list); other widths 1..64 are not covered"
 SPLIT(unsigned_split, WIFN(14unsigned_splitERSt6vectorIS4_SaIS4_EE), 2, vec_none_cross_u(out, GWV))
 /* cut: both; <= 3 pieces of a proper interval.  NOT RUN (see the header): signed_split and unsigned_split are */
 //@off-check id=su_split fn=_ZNK4crab7domains16wrapped_intervalIN4ikos8z_numberEE25signed_and_unsigned_splitERSt6vectorIS4_SaIS4_EE props=C13 unwind=5 replace=_ZNK4crab7domains16wrapped_intervalIN4ikos8z_numberEEleERKS4_,_ZNK4crab7domains16wrapped_intervalIN4ikos8z_numberEE6is_topEv vary=WIW:3 vary_thorough=WIW:1,2,3,4 backends=cvc5,minisat first_timeout=400 timeout=600 cost=8
 SPLIT(su_split, WIFN(25signed_and_unsigned_splitERSt6vectorIS4_SaIS4_EE), 4, vec_none_cross_s(out, GWV) && vec_none_cross_u(out, GWV))
 /* trim_zero: the pieces hold exactly the non-zero elements.  Of a proper interval only (get_bitwidth first: CRAB_ERROR otherwise) */
-//@check id=trim_zero fn=_ZNK4crab7domains16wrapped_intervalIN4ikos8z_numberEE9trim_zeroERSt6vectorIS4_SaIS4_EE props=C13 unwind=4 replace=_ZNK4crab7domains16wrapped_intervalIN4ikos8z_numberEE2atENS_7wrapintE,_ZNK4crab7domains16wrapped_intervalIN4ikos8z_numberEEeqERKS4_,_ZNK4crab7domains16wrapped_intervalIN4ikos8z_numberEE6is_topEv vary=WIW:3 vary_thorough=WIW:1,2,3,4,8
+//@check id=trim_zero fn=_ZNK4crab7domains16wrapped_intervalIN4ikos8z_numberEE9trim_zeroERSt6vectorIS4_SaIS4_EE props=C13 unwind=4 replace=_ZNK4crab7domains16wrapped_intervalIN4ikos8z_numberEE2atENS_7wrapintE,_ZNK4crab7domains16wrapped_intervalIN4ikos8z_numberEEeqERKS4_,_ZNK4crab7domains16wrapped_intervalIN4ikos8z_numberEE6is_topEv vary=WIW:3 vary_thorough=WIW:1,2,3,4,8 bounded="proof for ALL operands, but only at the enumerated bit widths of this run (WIW/TRP list); other widths 1..64 are not covered"
 void WIFN(9trim_zeroERSt6vectorIS4_SaIS4_EE)(WI *self, VEC *out)
 __CPROVER_requires(FRESH(trim_zero, self, sizeof(WI)) && FRESH(trim_zero, out, sizeof(VEC)) && GW && GPTS && wi_proper(*self, GWV) && VEMPTY(out))
 __CPROVER_assigns(*out)
@@ -535,7 +535,7 @@ __CPROVER_ensures(VN(out) <= 2 && vec_all_proper(out, GWV) && !vec_has(out, 0))
 __CPROVER_ensures((wi_has(*self, g_x) && g_x != 0) == vec_has(out, g_x));
 void h_trim_zero(void){ IN(WI, a); VEC v; HG; WIFN(9trim_zeroERSt6vectorIS4_SaIS4_EE)(&a, &v); REACH; }
 /* exact_meet: the pieces hold exactly the common elements (an empty vector: no common element) */
-//@check id=exact_meet fn=_ZNK4crab7domains16wrapped_intervalIN4ikos8z_numberEE10exact_meetERKS4_RSt6vectorIS4_SaIS4_EE props=C13,C04 unwind=4 replace=_ZNK4crab7domains16wrapped_intervalIN4ikos8z_numberEE2atENS_7wrapintE,_ZNK4crab7domains16wrapped_intervalIN4ikos8z_numberEEeqERKS4_,_ZNK4crab7domains16wrapped_intervalIN4ikos8z_numberEE6is_topEv vary=WIW:3 vary_thorough=WIW:1,2,3,4 backends=cvc5,minisat first_timeout=400 timeout=600 cost=8
+//@check id=exact_meet fn=_ZNK4crab7domains16wrapped_intervalIN4ikos8z_numberEE10exact_meetERKS4_RSt6vectorIS4_SaIS4_EE props=C13,C04 unwind=4 replace=_ZNK4crab7domains16wrapped_intervalIN4ikos8z_numberEE2atENS_7wrapintE,_ZNK4crab7domains16wrapped_intervalIN4ikos8z_numberEEeqERKS4_,_ZNK4crab7domains16wrapped_intervalIN4ikos8z_numberEE6is_topEv vary=WIW:3 vary_thorough=WIW:1,2,3,4 backends=cvc5,minisat first_timeout=400 timeout=600 cost=8 bounded="proof for ALL operands, but only at the enumerated bit widths of this run (WIW/TRP list); other widths 1..64 are not covered"
 void WIFN(10exact_meetERKS4_RSt6vectorIS4_SaIS4_EE)(WI *self, WI *x, VEC *out)
 __CPROVER_requires(REQ2(exact_meet) && FRESH(exact_meet, out, sizeof(VEC)) && VEMPTY(out))
 __CPROVER_assigns(*out)
@@ -553,9 +553,9 @@ __CPROVER_ensures(OKW(*ret)) \
 __CPROVER_ensures((NOCROSS(*self) && NOCROSS(*x) && wi_has(*self, g_x) && wi_has(*x, g_y)) ==> wi_has(*ret, (g_x * g_y) & M)); \
 void h_##tag(void){ IN(WI, a); IN(WI, b); HG; WI r; fn(&r, &a, &b); REACH; }
 /* unsigned_mul / signed_mul on pieces that cross no pole (what operator* feeds them) */
-//@check id=unsigned_mul fn=_ZNK4crab7domains16wrapped_intervalIN4ikos8z_numberEE12unsigned_mulERKS4_ props=C13 defs=ZM_PRECISE vary=WIW:3 vary_thorough=WIW:1,2,3,4
+//@check id=unsigned_mul fn=_ZNK4crab7domains16wrapped_intervalIN4ikos8z_numberEE12unsigned_mulERKS4_ props=C13 defs=ZM_PRECISE vary=WIW:3 vary_thorough=WIW:1,2,3,4 bounded="proof for ALL operands, but only at the enumerated bit widths of this run (WIW/TRP list); other widths 1..64 are not covered"
 MULPART(unsigned_mul, WIFN(12unsigned_mulERKS4_))
-//@check id=signed_mul fn=_ZNK4crab7domains16wrapped_intervalIN4ikos8z_numberEE10signed_mulERKS4_ props=C13 defs=ZM_PRECISE vary=WIW:3 vary_thorough=WIW:1,2,3,4
+//@check id=signed_mul fn=_ZNK4crab7domains16wrapped_intervalIN4ikos8z_numberEE10signed_mulERKS4_ props=C13 defs=ZM_PRECISE vary=WIW:3 vary_thorough=WIW:1,2,3,4 bounded="proof for ALL operands, but only at the enumerated bit widths of this run (WIW/TRP list); other widths 1..64 are not covered"
 MULPART(signed_mul, WIFN(10signed_mulERKS4_))
 /* operator*: <= 3 x 3 pieces, <= 2 exact-meet results each: loops unwound to 5.  NOT RUN (see the header) */
 //@off-check id=mul fn=_ZNK4crab7domains16wrapped_intervalIN4ikos8z_numberEEmlERKS4_ props=C13 defs=ZM_PRECISE unwind=5 timeout=900 first_timeout=600 cost=9 replace=_ZNK4crab7domains16wrapped_intervalIN4ikos8z_numberEEorERKS4_,_ZNK4crab7domains16wrapped_intervalIN4ikos8z_numberEEleERKS4_,_ZNK4crab7domains16wrapped_intervalIN4ikos8z_numberEEeqERKS4_,_ZNK4crab7domains16wrapped_intervalIN4ikos8z_numberEE2atENS_7wrapintE,_ZNK4crab7domains16wrapped_intervalIN4ikos8z_numberEE6is_topEv vary=WIW:2 vary_thorough=WIW:1,2,3
@@ -566,7 +566,7 @@ __CPROVER_ensures(OKW(*ret))
 __CPROVER_ensures((wi_has(*self, g_x) && wi_has(*x, g_y)) ==> wi_has(*ret, (g_x * g_y) & M));
 void h_mul(void){ IN(WI, a); IN(WI, b); HG; WI r; WIFN(mlERKS4_)(&r, &a, &b); REACH; }
 /* unsigned_div / signed_div on pieces (divisor without 0) */
-//@check id=unsigned_div fn=_ZNK4crab7domains16wrapped_intervalIN4ikos8z_numberEE12unsigned_divERKS4_ props=C13 vary=WIW:3 vary_thorough=WIW:1,2,3,4
+//@check id=unsigned_div fn=_ZNK4crab7domains16wrapped_intervalIN4ikos8z_numberEE12unsigned_divERKS4_ props=C13 vary=WIW:3 vary_thorough=WIW:1,2,3,4 bounded="proof for ALL operands, but only at the enumerated bit widths of this run (WIW/TRP list); other widths 1..64 are not covered"
 void WIFN(12unsigned_divERKS4_)(WI *ret, WI *self, WI *x)
 __CPROVER_requires(FRESH(unsigned_div, ret, sizeof(WI)) && REQ2(unsigned_div) && LOGOFF && wi_proper(*self, GWV) && wi_proper(*x, GWV) && !wi_has(*x, 0) && !sp_cross_u(*self, GWV))
 __CPROVER_assigns(*ret)
@@ -574,7 +574,7 @@ __CPROVER_ensures(OKW(*ret))
 __CPROVER_ensures((wi_has(*self, g_x) && wi_has(*x, g_y)) ==> wi_has(*ret, g_x / (g_y == 0 ? 1 : g_y)));
 void h_unsigned_div(void){ IN(WI, a); IN(WI, b); HG; WI r; WIFN(12unsigned_divERKS4_)(&r, &a, &b); REACH; }
 static inline uint64_t sdivv(uint64_t x, uint64_t y, uint64_t w){ i128 a = sxv(x, w), b = sxv(y, w); return wrapz(b == 0 ? 0 : ZM_div(a, b), w); }
-//@check id=signed_div fn=_ZNK4crab7domains16wrapped_intervalIN4ikos8z_numberEE10signed_divERKS4_ props=C13 defs=ZM_PRECISE vary=WIW:3 vary_thorough=WIW:1,2,3,4
+//@check id=signed_div fn=_ZNK4crab7domains16wrapped_intervalIN4ikos8z_numberEE10signed_divERKS4_ props=C13 defs=ZM_PRECISE vary=WIW:3 vary_thorough=WIW:1,2,3,4 bounded="proof for ALL operands, but only at the enumerated bit widths of this run (WIW/TRP list); other widths 1..64 are not covered"
 void WIFN(10signed_divERKS4_)(WI *ret, WI *self, WI *x)
 __CPROVER_requires(FRESH(signed_div, ret, sizeof(WI)) && REQ2(signed_div) && LOGOFF && NOCROSS(*self) && NOCROSS(*x) && !wi_has(*x, 0))
 __CPROVER_assigns(*ret)
@@ -598,7 +598,7 @@ void h_sdiv(void){ IN(WI, a); IN(WI, b); HG; WI r; WIFN(4SDivERKS4_)(&r, &a, &b)
 
 /* ================================================================ to_interval: the signed values, as a mathematical interval */
 #include "../interval/spec.h"
-//@check id=to_interval fn=_ZNK4crab7domains16wrapped_intervalIN4ikos8z_numberEE11to_intervalEv props=C13 defs=ZBITS=64 replace=_ZNK4crab7domains16wrapped_intervalIN4ikos8z_numberEE18cross_signed_limitEv,_ZNK4crab7domains16wrapped_intervalIN4ikos8z_numberEE6is_topEv vary=WIW:3,64 vary_thorough=WIW:1,2,3,8,32,64
+//@check id=to_interval fn=_ZNK4crab7domains16wrapped_intervalIN4ikos8z_numberEE11to_intervalEv props=C13 defs=ZBITS=64 replace=_ZNK4crab7domains16wrapped_intervalIN4ikos8z_numberEE18cross_signed_limitEv,_ZNK4crab7domains16wrapped_intervalIN4ikos8z_numberEE6is_topEv vary=WIW:3,64 vary_thorough=WIW:1,2,3,8,32,64 bounded="proof for ALL operands, but only at the enumerated bit widths of this run (WIW/TRP list); other widths 1..64 are not covered"
 void WIFN(11to_intervalEv)(I *ret, WI *self)
 __CPROVER_requires(FRESH(to_interval, ret, sizeof(I)) && FRESH(to_interval, self, sizeof(WI)) && GW && GPTS && OKW(*self))
 __CPROVER_assigns(*ret)
